@@ -11,6 +11,7 @@ import (
 	"net"
 	"strings"
 	"sync"
+	"sync/atomic"
 	"time"
 
 	netty "github.com/go-netty/go-netty"
@@ -86,11 +87,20 @@ func (p *fprobe) maybePanic(kind string) {
 	v, rt := p.armVal, p.armRT
 	p.mu.Unlock()
 	if rt {
+		// a real runtime error; the value the runtime panics with is remembered (recover, re-panic the very same value)
+		defer func() {
+			r := recover()
+			c07LastRuntimeErr.Store(&r)
+			panic(r)
+		}()
 		var m map[string]int
-		m["boom"] = 1 // a real runtime error
+		m["boom"] = 1
 	}
 	panic(v)
 }
+
+// c07LastRuntimeErr holds the value of the most recent provoked runtime error (cells run one after another per worker).
+var c07LastRuntimeErr atomic.Value
 
 func (p *fprobe) HandleActive(ctx netty.ActiveContext) {
 	p.mu.Lock()
@@ -694,8 +704,14 @@ func c07SameExc(got error, val interface{}, kind int) bool {
 		return false
 	}
 	if kind == 2 {
+		// the runtime error itself (it is an error): the very value the runtime panicked with
+		if p, _ := c07LastRuntimeErr.Load().(*interface{}); p != nil {
+			if e, ok := (*p).(error); ok {
+				return got == e
+			}
+		}
 		var re interface{ RuntimeError() }
-		return errors.As(got, &re) // the runtime error itself (it is an error)
+		return errors.As(got, &re)
 	}
 	if e, ok := val.(error); ok {
 		return got == e
